@@ -1,5 +1,6 @@
 /- dispatch for the UNIT engines: each reads a transcript of the real component and replays it on the model -/
 import OtterVerif.Impl.Sketch
+import OtterVerif.Impl.Wheel
 
 namespace Driver.Units
 open OtterVerif
@@ -72,6 +73,48 @@ def skStep (st : SkSt) (line : String) (t : Tally) : Except String (SkSt × Tall
     else .ok (st, t.bump "mixer_points")
   | _ => .error s!"unknown line"
 
+/-! ### wheel -/
+
+def parseIntS (s : String) : Int :=
+  if s.startsWith "-" then -(((s.drop 1).toString.toNat?).getD 0 : Int) else ((s.toNat?).getD 0 : Int)
+
+def whStep (w : Impl.Wheel.Wheel) (line : String) (t : Tally) : Except String (Impl.Wheel.Wheel × Tally) :=
+  let ws := splitWs line
+  let check (w' : Impl.Wheel.Wheel) (rest : List String) (what : String) (t : Tally) : Except String (Impl.Wheel.Wheel × Tally) :=
+    let got := s!"time={w'.time} dump={Impl.Wheel.dump w'}"
+    let want := " ".intercalate rest
+    if got != want then .error s!"{what}: implementation {want}, model {got}" else .ok (w', t)
+  match ws with
+  | ["consts", b, sp, sh] =>
+    let want := s!"buckets={",".intercalate (Impl.Wheel.nBuckets.map toString)} spans={",".intercalate (Impl.Wheel.spans.map toString)} shift={",".intercalate (Impl.Wheel.shifts.map toString)}"
+    if s!"{b} {sp} {sh}" != want then .error s!"wheel constants: implementation {b} {sp} {sh}, model {want}" else .ok (w, t)
+  | "add" :: n :: d :: "=>" :: rest =>
+    let dn := Impl.Wheel.wheelTime (parseIntS d)
+    let lvl := (Impl.Wheel.findBucket w.time dn).1
+    let t := t.bump s!"add_level{lvl}"
+    let t := if dn < w.time then t.bump "add_behind_clock" else t
+    check (Impl.Wheel.add w n.toNat! dn) rest s!"Add {n} {d}" t
+  | "del" :: n :: "=>" :: rest => check (Impl.Wheel.delete w n.toNat!) rest s!"Delete {n}" (t.bump "deletes")
+  | "readd" :: n :: d :: "=>" :: rest =>
+    let dn := Impl.Wheel.wheelTime (parseIntS d)
+    check (Impl.Wheel.add (Impl.Wheel.delete w n.toNat!) n.toNat! dn) rest s!"re-Add {n} {d}" (t.bump "readds")
+  | "sweep" :: now :: "=>" :: ex :: rest =>
+    let (w', e) := Impl.Wheel.deleteExpired w (Impl.Wheel.wheelTime (parseIntS now))
+    let gotEx := "expired=" ++ ",".intercalate (e.map toString)
+    if gotEx != ex then .error s!"DeleteExpired {now}: implementation {ex}, model {gotEx}"
+    else
+      -- C13 oracle on the implementation's own bucket dump: after a sweep at T no linked node is overdue by a full tick,
+      -- and nothing was expired early
+      let T := Impl.Wheel.wheelTime (parseIntS now)
+      let early := e.filter (fun n => w.deadline n ≥ T)
+      let linkedIds := (w'.wheel.map (fun lv => lv.flatten)).flatten
+      let overdue := linkedIds.filter (fun n => (w'.deadline n) >>> 30 < T >>> 30)
+      if !early.isEmpty then .error s!"C13/C07: DeleteExpired {now} expired nodes {early} whose deadline has not passed"
+      else if !overdue.isEmpty then
+        .error s!"C13: after DeleteExpired {now} nodes {overdue} are still scheduled although their deadline lies more than one tick ({(overdue.map (fun n => T - w'.deadline n))} ns) in the past"
+      else check w' rest s!"DeleteExpired {now}" ((t.bump "sweeps").bump "expired" e.length)
+  | _ => .error "unknown line"
+
 /-- generic script loop: `step` per line, first failure of a script is reported, rest of the script skipped -/
 partial def loop {σ : Type} (h : IO.FS.Stream) (init : σ) (step : σ → String → Tally → Except String (σ × Tally))
     (st : σ) (script : String) (lineNo : Nat) (skipping : Bool) (t : Tally) : IO Unit := do
@@ -94,6 +137,7 @@ partial def loop {σ : Type} (h : IO.FS.Stream) (init : σ) (step : σ → Strin
 def dispatch (cmd : String) (_args : List String) (h : IO.FS.Stream) : IO UInt32 := do
   match cmd with
   | "sketch" => loop h ({} : SkSt) skStep {} "" 0 false {}; return 0
+  | "wheel" => loop h ({} : Impl.Wheel.Wheel) whStep {} "" 0 false {}; return 0
   | _ =>
     IO.eprintln s!"unknown engine {cmd}"
     return 2
